@@ -108,6 +108,10 @@ func runC02(c *Ctx) {
 	c.checkProxyAnswersProvenance()
 	c.checkProxyPollsProvenance()
 	c.checkRegistration()
+	c.checkBridgeListReplaced()
+	c.verbatimResult("O-8 session ids and answers are used verbatim", "common/messages", "DecodeProxyPollRequestWithRelayPrefix", 0, "Sid")
+	c.verbatimResult("O-8 session ids and answers are used verbatim", "common/messages", "DecodeAnswerRequest", 1, "Sid")
+	c.verbatimResult("O-8 session ids and answers are used verbatim", "common/messages", "DecodeAnswerRequest", 0, "Answer")
 
 	// ---------- O-5 one matching path ----------
 	match := p.Fn("broker", "(*IPC).matchSnowflake")
@@ -309,8 +313,8 @@ func (c *Ctx) checkBrokerLoopProvenance() {
 				}
 				if al, ok := b.(*ssa.Alloc); ok {
 					s := singleStore(al)
-					if s == nil {
-						return nil, "captured variable " + x.Name() + " is assigned more than once (shared between iterations/goroutines)"
+					if s == nil || sharedAcrossIterations(al, g) {
+						return nil, "captured variable " + x.Name() + " is shared between loop iterations (and so between the goroutines they start)"
 					}
 					return strip(s), ""
 				}
@@ -320,8 +324,8 @@ func (c *Ctx) checkBrokerLoopProvenance() {
 					b := freeVarBinding(fv)
 					if al, ok := b.(*ssa.Alloc); ok {
 						s := singleStore(al)
-						if s == nil {
-							return nil, "captured variable " + fv.Name() + " is assigned more than once (shared between iterations/goroutines)"
+						if s == nil || sharedAcrossIterations(al, g) {
+							return nil, "captured variable " + fv.Name() + " is shared between loop iterations (and so between the goroutines they start)"
 						}
 						return strip(s), ""
 					}
@@ -558,4 +562,151 @@ func (c *Ctx) checkRegistration() {
 	if n == 0 {
 		c.undecided(rule, "idToSnowflake insertions", "-", "no insertion found")
 	}
+}
+
+// sharedAcrossIterations: the local cell `al` captured by the closure created at
+// `site` lives outside a loop that contains the site, i.e. all iterations (and
+// the goroutines they start) share one variable.
+func sharedAcrossIterations(al *ssa.Alloc, site ssa.Instruction) bool {
+	sb := site.Block()
+	if al.Block() == sb && instrIndex(al) < instrIndex(site) {
+		return false
+	}
+	// can the site's block reach itself without passing the alloc's block?
+	seen := map[*ssa.BasicBlock]bool{}
+	var q []*ssa.BasicBlock
+	for _, s := range sb.Succs {
+		q = append(q, s)
+	}
+	for len(q) > 0 {
+		b := q[0]
+		q = q[1:]
+		if seen[b] || b == al.Block() {
+			continue
+		}
+		seen[b] = true
+		if b == sb {
+			return true
+		}
+		q = append(q, b.Succs...)
+	}
+	return false
+}
+
+// verbatimResult: result idx of decoder fn is, on every return, a constant or
+// the unmodified field `field` of the decoded message, and the decoder never
+// assigns that field itself.
+func (c *Ctx) verbatimResult(rule, rel, fnName string, idx int, field string) {
+	p := c.P
+	fn := p.Fn(rel, fnName)
+	key := fmt.Sprintf("%s.%s result %d is the decoded %s verbatim", rel, fnName, idx, field)
+	if fn == nil {
+		c.undecided(rule, key, "-", "anchor does not resolve")
+		return
+	}
+	c.analysedFn(p.FnName(fn))
+	for _, b := range fn.Blocks {
+		for _, in := range b.Instrs {
+			if st, ok := in.(*ssa.Store); ok {
+				if _, f, ok := fieldOfAddr(st.Addr); ok && f.Name() == field {
+					c.viol(rule, key, p.instrPos(in), "the decoder rewrites the "+field+" field after unmarshalling: distinct values can collapse to one")
+					return
+				}
+			}
+		}
+	}
+	sawField := false
+	for _, r := range returnsOf(fn) {
+		if idx >= len(r.Results) {
+			continue
+		}
+		okRes := sameValue(r.Results[idx], func(v ssa.Value) bool {
+			if _, isConst := v.(*ssa.Const); isConst {
+				return true
+			}
+			if _, f, ok := fieldLoad(v); ok && f.Name() == field {
+				sawField = true
+				return true
+			}
+			return false
+		})
+		if !okRes {
+			c.viol(rule, key, p.instrPos(r), "the returned value is computed from, rather than equal to, the decoded "+field)
+			return
+		}
+	}
+	c.check(sawField, rule, key, p.Pos(fn.Pos()), "", "no return carries the decoded "+field)
+}
+
+func (c *Ctx) checkBridgeListReplaced() {
+	p := c.P
+	rule := "O-7 installing a bridge list replaces the previous one"
+	fn := p.Fn("broker", "(*bridgeListHolder).LoadBridgeInfo")
+	f := p.Field("broker", "bridgeListHolder", "bridgeInfo")
+	if fn == nil || f == nil {
+		c.undecided(rule, "bridgeListHolder.LoadBridgeInfo", "-", "anchor does not resolve")
+		return
+	}
+	c.analysedFn(p.FnName(fn))
+	nStore, bad := 0, false
+	for _, a := range accessesOfField(p.FnsIn("broker"), f, true) {
+		switch {
+		case a.Kind == accWrite && a.What == "field":
+			nStore++
+			st := a.Instr.(*ssa.Store)
+			mm, ok := strip(st.Val).(*ssa.MakeMap)
+			if !ok || mm.Parent() != a.Fn {
+				bad = true
+				c.viol(rule, p.FnName(a.Fn)+" assigns bridgeInfo", p.instrPos(a.Instr), "the bridge map is assigned something other than a map built by this invocation")
+			} else if path := conditionalStore(a.Fn, st); path != nil && a.Fn == fn {
+				bad = true
+				c.viol(rule, p.FnName(a.Fn)+" assigns bridgeInfo", p.instrPos(a.Instr), "a successful load can return without replacing the bridge map", p.pathString(path)...)
+			}
+		case a.Kind == accWrite:
+			bad = true
+			c.viol(rule, p.FnName(a.Fn)+" mutates the installed bridge map in place ("+a.What+")", p.instrPos(a.Instr), "entries of an earlier list (including the built-in default bridge) survive the installation of a new list, so a fingerprint absent from the new list can still be matched")
+		}
+	}
+	if !bad {
+		c.check(nStore >= 1, rule, "LoadBridgeInfo swaps in a map built from the reader", p.Pos(fn.Pos()), fmt.Sprintf("%d assignment(s), no in-place mutation", nStore), "bridgeInfo is never assigned")
+	}
+}
+
+// conditionalStore: is there a path from entry to a `return nil`-error exit
+// of fn that does not execute st? Returns such a path.
+func conditionalStore(fn *ssa.Function, st *ssa.Store) []*ssa.BasicBlock {
+	ei := errResultIndex(fn.Signature)
+	for _, r := range returnsOf(fn) {
+		if ei >= 0 && !isNilConst(r.Results[ei]) {
+			continue
+		}
+		// path entry -> r avoiding st's block
+		if r.Block() == st.Block() {
+			continue
+		}
+		blocked := st.Block()
+		prev := map[*ssa.BasicBlock]*ssa.BasicBlock{fn.Blocks[0]: nil}
+		q := []*ssa.BasicBlock{fn.Blocks[0]}
+		for len(q) > 0 {
+			b := q[0]
+			q = q[1:]
+			if b == blocked {
+				continue
+			}
+			if b == r.Block() {
+				var path []*ssa.BasicBlock
+				for x := b; x != nil; x = prev[x] {
+					path = append([]*ssa.BasicBlock{x}, path...)
+				}
+				return path
+			}
+			for _, s := range b.Succs {
+				if _, ok := prev[s]; !ok {
+					prev[s] = b
+					q = append(q, s)
+				}
+			}
+		}
+	}
+	return nil
 }
